@@ -292,8 +292,12 @@ class ApiMergeStoreHandler(NbdimeHandler, APIHandler):
         # Somehow store unsolved conflicts?
         # conflicts = body['conflicts']
 
+        # Serialize first, so that a body that cannot be written as a
+        # notebook does not truncate the output file:
+        buf = io.StringIO()
+        nbformat.write(merged_nb, buf)
         with io.open(path, 'w', encoding='utf8') as f:
-            nbformat.write(merged_nb, f)
+            f.write(buf.getvalue())
         self.finish()
 
 
